@@ -170,7 +170,7 @@ impl Prop for C04 {
       let res = s.eval(&stmt);
       let after = s.snapshot();
       return match res {
-        Ev::Ok(val) => Outcome::violated("value-instead-of-error", format!("{} on {} succeeded: x = {}", stmt, x.show(), after.get("x").map(|c| c.show()).unwrap_or_default())),
+        Ev::Ok(val) => Outcome::violated(if after == before { "value-instead-of-error:nothing-written" } else { "value-instead-of-error" }, format!("{} on {} succeeded: x = {}", stmt, x.show(), after.get("x").map(|c| c.show()).unwrap_or_default())),
         Ev::Err(kind, _) => if after != before { Outcome::violated("changed-after-error", format!("{} failed ({}) but symbols changed: {} -> {}", stmt, kind, show_snapshot(&before), show_snapshot(&after))) } else { Outcome::held().tag(format!("err:{}", kind)) },
         Ev::ParseErr(m) => Outcome::inconclusive("harness-parse", format!("{} {}", stmt, m)),
         Ev::Panic(m) => Outcome::violated("panic-escaped", m),
